@@ -264,7 +264,12 @@ def getParentWireName(child:Logic, w:Wire):
     return wNames[w]
     
 def InlineConstant(obj:Logic):
-    return "assign {} = {};\n".format(getParentWireName(obj, obj.r) + getWidthInfo(obj.r), obj.value)
+    value = obj.value
+    if (value < -(1<<31)) or (value >= (1<<31)):
+        # an unsized literal is only guaranteed to hold 32 bits, so size it explicitly
+        w = obj.r.getWidth()
+        value = "{}'d{}".format(w, value & ((1<<w)-1))
+    return "assign {} = {};\n".format(getParentWireName(obj, obj.r) + getWidthInfo(obj.r), value)
 
 def InlineShiftLeftConstant(obj:Logic):
     return "assign {} = {} << {};\n".format(getParentWireName(obj, obj.r), getParentWireName(obj, obj.a) , obj.getParameterValue('n'))
@@ -284,6 +289,9 @@ def InlineBuf(obj:Logic):
     return "assign {} = {};\n".format(getParentWireName(obj, obj.r), getParentWireName(obj, obj.a))
 
 def InlineSignExtend(obj:Logic):
+    if (obj.r.getWidth() <= obj.a.getWidth()):
+        # nothing to extend (a replication count of 0 or less is not legal), the value is truncated
+        return "assign {} = {};\n".format(getParentWireName(obj, obj.r), getParentWireName(obj, obj.a))
     return "assign {} = {{ {{ {} {{ {}[{}] }} }}, {} }};\n".format(getParentWireName(obj, obj.r), obj.r.getWidth() - obj.a.getWidth(),  getParentWireName(obj, obj.a), obj.a.getWidth()-1, getParentWireName(obj, obj.a))
 
 def InlineZeroExtend(obj:Logic):
